@@ -137,60 +137,72 @@ Proof.
   exists e, (gradient_result env e pt). repeat split; reflexivity.
 Qed.
 
-(* one call: the cache invariant is kept, and every result of the call is the result of a fresh evaluation of the
-   requested point -- whatever the cache held *)
-Lemma calc_spec env ch rq : cache_ok env ch ->
-  cache_ok env (fst (calc env ch rq)) /\
-  match snd (calc env ch rq) with
-  | Ok rs => (forall e, In (RFun e) rs -> fresh_function env (req_point rq) = Ok e) /\
-             (forall g, In (RGrad g) rs -> fresh_gradient env (req_point rq) = Ok g)
-  | Abort c => fresh_function env (req_point rq) = Abort c
+Lemma eval_batch_spec env : forall ks,
+  match eval_batch env ks with
+  | Ok es => length es = length ks /\
+             forall i e, nth_error es i = Some e -> fresh_function env (nth i ks 0%nat) = Ok e
+  | Abort c => exists k, In k ks /\ fresh_function env k = Abort c
   | Raise _ => True
   end.
 Proof.
-  intros Hc. destruct rq as [k|k|k]; cbn [calc req_point].
-  - unfold fresh_function. destruct (eval_point env k) as [[pt e]|c|s] eqn:E; cbn [fst snd].
+  induction ks as [|k rest IH]; cbn [eval_batch].
+  - split; [reflexivity|]. intros i e H. destruct i; discriminate.
+  - unfold fresh_function in *. destruct (eval_point env k) as [[pt e]|c|s] eqn:E; [| |exact I].
+    + destruct (eval_batch env rest) as [es|c|s]; [| |exact I].
+      * destruct IH as [HL IH]. split; [cbn [length]; rewrite HL; reflexivity|].
+        intros i e' H. destruct i as [|i]; cbn [nth_error nth] in *.
+        -- injection H as <-. rewrite E. reflexivity.
+        -- apply IH. exact H.
+      * destruct IH as [k' [Hin Hk']]. exists k'. split; [right; exact Hin | exact Hk'].
+    + exists k. split; [left; reflexivity|]. rewrite E. reflexivity.
+Qed.
+
+(* one call: the cache invariant is kept, and every result of the call is the result of a fresh evaluation of the
+   point it is about -- whatever the cache held *)
+Lemma calc_spec env ch rq : cache_ok env ch ->
+  cache_ok env (fst (calc env ch rq)) /\ answer_fresh env rq (snd (calc env ch rq)).
+Proof.
+  intros Hc.
+  assert (Hboth : forall k, result_point rq = (fun _ => k) -> req_points rq = [k] ->
+            cache_ok env (fst (calc_both env k)) /\ answer_fresh env rq (snd (calc_both env k))).
+  { intros k Hrp Hps. destruct (calc_both_spec env k) as [H1 H2]. rewrite H1. split; [exact I|].
+    destruct (snd (calc_both env k)) as [rs|c|s]; cbn [answer_fresh]; [| |exact I].
+    - destruct H2 as [e [g [-> [He Hg]]]]. intros i r Hi. unfold result_fresh. rewrite Hrp.
+      destruct i as [|[|i]]; cbn [nth_error] in Hi; try (destruct i; discriminate).
+      + injection Hi as <-. exact He.
+      + injection Hi as <-. exact Hg.
+    - exists k. rewrite Hps. split; [left; reflexivity | exact H2]. }
+  destruct rq as [k|k|k|ks]; cbn [calc].
+  - unfold fresh_function. destruct (eval_point env k) as [[pt e]|c|s] eqn:E; cbn [fst snd answer_fresh].
     + split; [unfold cache_ok, fresh_function; rewrite E; reflexivity|].
-      split; [intros e' [H|[]]; injection H as <-; reflexivity | intros g [H|[]]; discriminate].
-    + split; [exact Hc | reflexivity].
+      intros i r Hi. destruct i as [|i]; cbn [nth_error] in Hi; [|destruct i; discriminate].
+      injection Hi as <-. unfold result_fresh, fresh_function. cbn [result_point]. rewrite E. reflexivity.
+    + split; [exact Hc|]. exists k. split; [left; reflexivity|]. unfold fresh_function. rewrite E. reflexivity.
     + split; [exact Hc | exact I].
-  - assert (Hboth : cache_ok env (fst (calc_both env k)) /\
-            match snd (calc_both env k) with
-            | Ok rs => (forall e, In (RFun e) rs -> fresh_function env k = Ok e) /\
-                       (forall g, In (RGrad g) rs -> fresh_gradient env k = Ok g)
-            | Abort c => fresh_function env k = Abort c
-            | Raise _ => True
-            end).
-    { destruct (calc_both_spec env k) as [H1 H2]. rewrite H1. split; [exact I|].
-      destruct (snd (calc_both env k)) as [rs|c|s]; [|exact H2|exact I].
-      destruct H2 as [e [g [-> [He Hg]]]]. split.
-      - intros e' [H|[H|[]]]; [injection H as <-; exact He | discriminate].
-      - intros g' [H|[H|[]]]; [discriminate | injection H as <-; exact Hg]. }
-    destruct ch as [[k' e]|]; [|exact Hboth].
-    destruct (Nat.eqb_spec k k') as [<-|Hne]; [|exact Hboth].
+  - destruct ch as [[k' e]|]; [|apply Hboth; reflexivity].
+    destruct (Nat.eqb_spec k k') as [<-|Hne]; [|apply Hboth; reflexivity].
     unfold cache_ok, fresh_function in Hc.
     destruct (eval_point env k) as [[pt e']|c|s] eqn:E; try discriminate. injection Hc as ->.
-    rewrite (eval_point_pt _ _ _ _ E). cbn [fst snd]. split.
+    rewrite (eval_point_pt _ _ _ _ E). cbn [fst snd answer_fresh]. split.
     + unfold cache_ok, fresh_function. rewrite E. reflexivity.
-    + split; [intros e' [H|[]]; discriminate|].
-      intros g [H|[]]. injection H as <-. unfold fresh_gradient. rewrite E. reflexivity.
-  - destruct (calc_both_spec env k) as [H1 H2]. rewrite H1. split; [exact I|].
-    destruct (snd (calc_both env k)) as [rs|c|s]; [|exact H2|exact I].
-    destruct H2 as [e [g [-> [He Hg]]]]. split.
-    + intros e' [H|[H|[]]]; [injection H as <-; exact He | discriminate].
-    + intros g' [H|[H|[]]]; [discriminate | injection H as <-; exact Hg].
+    + intros i r Hi. destruct i as [|i]; cbn [nth_error] in Hi; [|destruct i; discriminate].
+      injection Hi as <-. unfold result_fresh, fresh_gradient. cbn [result_point]. rewrite E. reflexivity.
+  - apply Hboth; reflexivity.
+  - pose proof (eval_batch_spec env ks) as HB.
+    destruct (eval_batch env ks) as [es|c|s]; cbn [fst snd answer_fresh].
+    + destruct HB as [HL HB]. split.
+      * destruct es as [|e0 es']; [exact Hc|]. unfold cache_ok.
+        specialize (HB 0%nat e0 eq_refl). destruct ks as [|k0 ks']; [discriminate|]. exact HB.
+      * intros i r Hi. rewrite nth_error_map in Hi. destruct (nth_error es i) as [e|] eqn:Ei; [|discriminate].
+        injection Hi as <-. unfold result_fresh. cbn [result_point]. apply HB. exact Ei.
+    + split; [exact Hc | exact HB].
+    + split; [exact Hc | exact I].
 Qed.
 
 (* any sequence of calls on one evaluator: answer i is about request i only *)
 Theorem run_direct_spec env : forall reqs ch, cache_ok env ch ->
   forall i rq, nth_error reqs i = Some rq ->
-  exists a, nth_error (run_direct env ch reqs) i = Some a /\
-    match a with
-    | Ok rs => (forall e, In (RFun e) rs -> fresh_function env (req_point rq) = Ok e) /\
-               (forall g, In (RGrad g) rs -> fresh_gradient env (req_point rq) = Ok g)
-    | Abort c => fresh_function env (req_point rq) = Abort c
-    | Raise _ => True
-    end.
+  exists a, nth_error (run_direct env ch reqs) i = Some a /\ answer_fresh env rq a.
 Proof.
   induction reqs as [|r rest IH]; intros ch Hc i rq Hi; [destruct i; discriminate|].
   cbn [run_direct]. pose proof (calc_spec env ch r Hc) as [Hc' Ha].
@@ -216,11 +228,10 @@ Proof.
 Qed.
 
 (* ---- optimizer step ------------------------------------------------------------------------------------------------ *)
-Lemma calc_abort_too_few env ch rq c : cache_ok env ch -> snd (calc env ch rq) = Abort c -> c = too_few.
+Lemma fresh_abort_too_few env k c : fresh_function env k = Abort c -> c = too_few.
 Proof.
-  intros Hc H. pose proof (calc_spec env ch rq Hc) as [_ Ha]. rewrite H in Ha.
-  unfold fresh_function, eval_point in Ha.
-  destruct (nth_error (s_points env) (req_point rq)) as [pt|]; [|discriminate].
+  unfold fresh_function, eval_point. intros Ha.
+  destruct (nth_error (s_points env) k) as [pt|]; [|discriminate].
   destruct (evaluate (s_cfg env) (s_filters env) (s_ofm env) (s_cfm env) (s_rmin env) (pt_objs pt) (pt_cons pt)) as [e|c'|s] eqn:E;
     try discriminate.
   injection Ha as <-.
@@ -228,9 +239,16 @@ Proof.
   cbv zeta in L. rewrite E in L. exact (proj1 L).
 Qed.
 
+Lemma calc_abort_too_few env ch rq c : cache_ok env ch -> snd (calc env ch rq) = Abort c -> c = too_few.
+Proof.
+  intros Hc H. pose proof (calc_spec env ch rq Hc) as [_ Ha]. rewrite H in Ha.
+  destruct Ha as [k [_ Hk]]. exact (fresh_abort_too_few env k c Hk).
+Qed.
+
 (* exit code of an optimizer step: OPTIMIZER_STEP_FINISHED exactly when every request delivered results that all carry
    values; otherwise TOO_FEW_REALIZATIONS, caused either by the last delivered tuple (a result without values) or by
-   the next request, whose evaluation was ended by a filter that found no positive weight (nothing delivered) *)
+   the next request, the evaluation of one of whose points was ended by a filter that found no positive weight
+   (nothing delivered) *)
 Theorem run_step_exit env an : forall reqs ch d code, cache_ok env ch ->
   run_step env an ch reqs = (d, Ok code) ->
   (code = step_finished /\ length d = length reqs /\
@@ -238,8 +256,9 @@ Theorem run_step_exit env an : forall reqs ch d code, cache_ok env ch ->
   (code = too_few /\
    ((exists d' rs, d = d' ++ [rs] /\ existsb (result_stops env an) rs = true /\
                    Forall (fun rs => existsb (result_stops env an) rs = false) d') \/
-    (exists rq, nth_error reqs (length d) = Some rq /\ fresh_function env (req_point rq) = Abort too_few /\
-                Forall (fun rs => existsb (result_stops env an) rs = false) d))).
+    (exists rq k, nth_error reqs (length d) = Some rq /\ In k (req_points rq) /\
+                  fresh_function env k = Abort too_few /\
+                  Forall (fun rs => existsb (result_stops env an) rs = false) d))).
 Proof.
   induction reqs as [|rq rest IH]; intros ch d code Hc H; cbn [run_step] in H.
   - injection H as <- <-. left. repeat split; constructor.
@@ -250,35 +269,41 @@ Proof.
     + destruct (existsb (result_stops env an) rs) eqn:Hs.
       * injection H as <- <-. right. split; [reflexivity|]. left. exists [], rs. repeat split; [exact Hs | constructor].
       * destruct (run_step env an ch' rest) as [d0 c0] eqn:Hr. injection H as <- ->.
-        destruct (IH ch' d0 code Hc' Hr) as [[E1 [E2 E3]]|[E1 [[d' [rs' [E2 [E3 E4]]]]|[rq' [E2 [E3 E4]]]]]].
+        destruct (IH ch' d0 code Hc' Hr) as [[E1 [E2 E3]]|[E1 [[d' [rs' [E2 [E3 E4]]]]|[rq' [k' [E2 [E3 [E4 E5]]]]]]]].
         -- left. split; [exact E1|]. split; [cbn [length]; lia | constructor; assumption].
         -- right. split; [exact E1|]. left. exists (rs :: d'), rs'. rewrite E2. repeat split; [exact E3 | constructor; assumption].
-        -- right. split; [exact E1|]. right. exists rq'. cbn [length nth_error]. repeat split; [exact E2 | exact E3 | constructor; assumption].
+        -- right. split; [exact E1|]. right. exists rq', k'. cbn [length nth_error].
+           repeat split; [exact E2 | exact E3 | exact E4 | constructor; assumption].
     + injection H as <- <-. pose proof (Hab c Hc eq_refl) as ->. right. split; [reflexivity|]. right.
-      exists rq. cbn [length nth_error]. repeat split; [exact Ha | constructor].
+      cbn [answer_fresh] in Ha. destruct Ha as [k [Hin Hk]].
+      exists rq, k. cbn [length nth_error]. repeat split; [exact Hin | exact Hk | constructor].
 Qed.
 
 (* a window emptied by failures at the first evaluation of a step: TOO_FEW_REALIZATIONS, nothing delivered *)
-Theorem run_step_first_abort env an rq rest c :
-  fresh_function env (req_point rq) = Abort c -> run_step env an None (rq :: rest) = ([], Ok c).
+Theorem run_step_first_abort env an rq rest k c :
+  req_points rq = [k] -> fresh_function env k = Abort c -> run_step env an None (rq :: rest) = ([], Ok c).
 Proof.
-  intros H. unfold fresh_function in H. cbn [run_step].
-  destruct rq as [k|k|k]; cbn [calc req_point] in *; unfold calc_both;
-    destruct (eval_point env k) as [[pt e]|c'|s]; try discriminate; injection H as ->; reflexivity.
+  intros Hp H. unfold fresh_function in H. cbn [run_step].
+  destruct rq as [k'|k'|k'|ks]; cbn [req_points] in Hp.
+  1-3: injection Hp as ->; cbn [calc]; unfold calc_both;
+       destruct (eval_point env k) as [[pt e]|c'|s]; try discriminate; injection H as ->; reflexivity.
+  subst ks. cbn [calc eval_batch]. destruct (eval_point env k) as [[pt e]|c'|s]; try discriminate. injection H as ->. reflexivity.
 Qed.
 
-Theorem run_evalstep_exit env k d code : run_evalstep env k = (d, Ok code) ->
-  match fresh_function env k with
-  | Ok e => d = [[RFun e]] /\ code = (if is_none (e_functions e) then too_few else evaluation_finished)
-  | Abort c => d = [] /\ code = c /\ c = too_few
+Theorem run_evalstep_exit env rq d code : run_evalstep env rq = (d, Ok code) ->
+  match snd (calc env None rq) with
+  | Ok rs => d = [rs] /\ answer_fresh env rq (Ok rs) /\
+             code = (if existsb lacks_functions rs then too_few else evaluation_finished)
+  | Abort c => d = [] /\ code = c /\ c = too_few /\ exists k, In k (req_points rq) /\ fresh_function env k = Abort too_few
   | Raise _ => False
   end.
 Proof.
-  unfold run_evalstep, fresh_function. intros H.
-  pose proof (calc_abort_too_few env None (ReqF k)) as Hab. cbn [calc snd] in Hab.
-  destruct (eval_point env k) as [[pt e]|c|s]; [| |discriminate].
-  - injection H as <- <-. split; reflexivity.
-  - injection H as <- <-. repeat split. apply Hab; [exact I | reflexivity].
+  unfold run_evalstep. intros H.
+  pose proof (calc_spec env None rq I) as [_ Ha].
+  pose proof (calc_abort_too_few env None rq) as Hab.
+  destruct (snd (calc env None rq)) as [rs|c|s]; [| |discriminate].
+  - injection H as <- <-. repeat split. exact Ha.
+  - injection H as <- <-. pose proof (Hab c I eq_refl) as ->. repeat split. exact Ha.
 Qed.
 
 (* ---- gradient values -------------------------------------------------------------------------------------------------- *)
